@@ -37,6 +37,12 @@ def sites(P):
             out.append(("expr", "after-call(", st.lparen, toks[st.lparen.idx + 1], proc))
         elif st.kind in ("If", "While"):
             lp = st.parts[1]; out.append(("expr", "after-%s(" % st.kind.lower(), lp, toks[lp.idx + 1], proc))
+    # after the `(` of a parenthesised sub-expression anywhere inside a statement (conditions with several groups, arguments, right-hand sides)
+    pm = feat.proc_of_tokens(P)
+    for n in gen.walk_nodes(P.root):
+        if n.kind == "Paren":
+            lp = n.parts[0]
+            if lp.uid in pm and toks[lp.idx + 1].kind != "comment": out.append(("expr", "after-inner(", lp, toks[lp.idx + 1], pm[lp.uid]))
     for p in P.procs:
         for q in p.params:
             c = [t for t in q.node.parts if isinstance(t, gen.Tok) and t.text == ":"][0]
